@@ -294,6 +294,17 @@ def run(ctx):
         evals += res["ncalls"]
         for k, d in res["errs"][:3]:
             ctx.violation(k, d, {"case": d})
+    # real runs: every proposal is trained on at least min_samples samples
+    from mc import runs
+
+    trained = 0
+    for cfg, res in ctx.pmap(real_worker, runs.ins_lattice(ctx.seed, True, resume_subsets=False)):
+        evals += 1
+        trained += len(res.get("train_sizes", []))
+        for c, d in res["errs"]:
+            if c == "proposal-trained-on-fewer-than-min_samples":
+                ctx.violation(f"{c}@{res['key']}", f"{c}: {d} (config {cfg})", {"case": str(cfg)})
+    ctx.set("trainings_monitored_in_real_runs", trained)
     ctx.set("evaluations", evals)
     ctx.set("distinct_nontrivial", len(outcomes))
     ctx.set("own_choice_classes", len(reps))
@@ -306,6 +317,12 @@ def run(ctx):
         "counts are stated on positions of the sorted live set; with ties any position carrying the returned value is accepted",
         "all -inf weight vectors are excluded (no weight at all)",
     )
+
+
+def real_worker(cfg):
+    from mc import runs
+
+    return runs.run_ins_case(cfg, want=())
 
 
 def full_small(items):
